@@ -6,11 +6,11 @@ cd "$wt" || exit 2
 git checkout -q -- . ; git clean -fdq -e target
 demo=$(ls "$m"/*.rs | head -1); name=$(basename "$demo" .rs); pkg=$(basename "$crate")
 export CARGO_NET_OFFLINE=true
-cp "$demo" "$crate/tests/"
+mkdir -p "$crate/tests"; cp "$demo" "$crate/tests/"
 cargo test -p "$pkg" --test "$name" --offline > "$m/confirm-demo-unpatched.log" 2>&1; a=$?
 git apply "$m/patch.diff" || { echo "$m: patch does not apply"; exit 2; }
 cargo test -p "$pkg" --test "$name" --offline > "$m/confirm-demo-patched.log" 2>&1; b=$?
-rm "$crate/tests/$name.rs"
+rm "$crate/tests/$name.rs"; rmdir "$crate/tests" 2>/dev/null
 cargo test --workspace --no-fail-fast --offline > "$m/confirm-suite-patched.log" 2>&1; s=$?
 if [ $s -ne 0 ]; then  # the it_aws tests share a directory and are occasionally flaky: once more
   cargo test --workspace --no-fail-fast --offline > "$m/confirm-suite-patched.log" 2>&1; s=$?
